@@ -48,7 +48,7 @@ Walk(o, ev, exp, k, f, raised) ==
           ELSE IF ~(g \subseteq base \cup MayIntroduce(ev[k].stage, o, f)) THEN "introduced-by:" \o ev[k].stage
           ELSE Walk(o, ev, exp, k + 1, g, raised)
 
-Verdict(t) == IF t.ev[1].stage # "entry" THEN "no-entry-event"
+Verdict(t) == IF Len(t.ev) = 0 \/ t.ev[1].stage # "entry" THEN "no-entry-event"
               ELSE Walk(t.opts, t.ev, Enabled(t.opts, 1), 2, AsSet(t.ev[1].feat), t.raised)
 
 ASSUME PrintT(ToJson([i \in 1..Len(Traces) |-> Verdict(Traces[i])]))
